@@ -4,6 +4,7 @@ import (
 	"sync"
 
 	"github.com/diiyw/nodis/ds"
+	"github.com/diiyw/nodis/storage"
 )
 
 const (
@@ -19,6 +20,10 @@ type metadata struct {
 	valueType ds.ValueType
 	state     uint8
 	writeable bool
+	// stored is the (name, deadline) under which the value currently sits in the storage backend
+	// (entries are addressed by both, so a changed deadline or a deleted key leaves an entry
+	// behind unless it is removed explicitly); nil = nothing stored yet
+	stored *ds.Key
 }
 
 func newMetadata() *metadata {
@@ -85,4 +90,27 @@ func (m *metadata) commit() {
 		return
 	}
 	m.RUnlock()
+}
+
+// persist writes the value to storage under the current key and removes the entry an earlier
+// write left under another deadline
+func (m *metadata) persist(ss storage.Storage) error {
+	if m.stored != nil && m.stored.Expiration != m.key.Expiration {
+		_ = ss.Delete(m.stored)
+		m.stored = nil
+	}
+	err := ss.Set(m.key, m.value)
+	if err != nil {
+		return err
+	}
+	m.stored = ds.NewKey(m.key.Name, m.key.Expiration)
+	return nil
+}
+
+// unpersist removes the storage entry of a key that ceases to exist
+func (m *metadata) unpersist(ss storage.Storage) {
+	if m.stored != nil {
+		_ = ss.Delete(m.stored)
+		m.stored = nil
+	}
 }
